@@ -286,6 +286,9 @@ impl ParseSess {
 
     pub(super) fn reset_errors(&self) {
         self.raw_psess.dcx().reset_err_count();
+        // The errors of an ignored file have been forgiven: what a later file reports is its
+        // own business again.
+        self.can_reset_errors.store(false, Ordering::Release);
     }
 }
 
